@@ -36,7 +36,7 @@ import math
 
 import numpy as np
 
-from mc import ScopeUnit, FAILED
+from mc import ScopeUnit, HistoryUnit, FAILED
 from mc.state import reset_executors
 
 from prysm import propagation
@@ -70,6 +70,7 @@ def tilt_pairs():
 
 
 TILTS = tilt_pairs()
+TILTS_LARGE = [[0, 0], [1, 0], [0, -2], [3, 1.25], [-0.5, 5]]
 
 
 def par(n):
@@ -236,10 +237,9 @@ def run_fixed_focus(case, seed, R):
 def run_fft_focus(case, seed, R):
     n, Q = case['n'], case['Q']
     wvl, efl, dxp = case['units']
-    npad = math.ceil(n * Q)
-    cell = f'{par(n)}:Q={"int" if float(Q).is_integer() else "frac"}'
+    cell = f'{par(n)}:Q={"int" if float(Q).is_integer() else "frac"}' + (':threshold' if case.get('large') else '')
     sig = f'Wavefront.focus:{cell}'
-    for kx, ky in TILTS:
+    for kx, ky in (TILTS_LARGE if case.get('large') else TILTS):
         p = tilted_pupil(n, n, kx, ky)
         w = Wavefront(p.copy(), wvl, dxp, 'pupil')
         out = R.call(w.focus, efl, Q)
@@ -249,8 +249,10 @@ def run_fft_focus(case, seed, R):
         dx = scalar(R, getattr(out, 'dx', None), sig + ':dx')
         if a is None or dx is None:
             continue
-        if a.shape != (npad, npad):
-            R.violation(sig + ':shape', f'focal array {a.shape}, expected ({npad}, {npad}) = ceil(N Q)')
+        # whatever size the route pads to (ceil(N Q) today) is its own business; the physics below holds for the grid that came back
+        npad = a.shape[0]
+        if a.shape[0] != a.shape[1] or npad < n:
+            R.violation(sig + ':shape', f'focal array {a.shape} from a square {n}x{n} pupil')
             continue
         R.expect(getattr(out, 'space', None) == 'psf', sig + ':space', 'space of the result')
         inten = R.call(lambda: out.intensity)
@@ -263,7 +265,7 @@ def run_fft_focus(case, seed, R):
         t_x = kx / n - cv[0] * dxp / (wvl * efl)
         t_y = ky / n - cv[1] * dxp / (wvl * efl)
         want = amp1 * dirichlet(n, t_y) * amp1 * dirichlet(n, t_x)
-        tol = tol_for(n, n, amp1 * amp1, n / 2 + 2)
+        tol = tol_for(n, n, amp1 * amp1, n / 2 + 2 + max(abs(kx), abs(ky)))
         R.expect_close(np.abs(a), want, tol, sig,
                        f'|field| vs closed-form kernel at the reported coordinates (reported dx={dx:.6g}um), spot at ({kx}, {ky}) lam f/D')
         I = as_array(R, getattr(inten, 'data', None), sig + ':intensity')
@@ -355,11 +357,10 @@ def run_unfocus_fft(case, seed, R):
     n, Q = case['n'], case['Q']
     wvl, efl, dxp = case['units']
     dxf = wvl * efl / (n * dxp)               # a focal grid that belongs to the pupil alphabet
-    npad = math.ceil(n * Q)
-    cell = f'{par(n)}:Q={"int" if float(Q).is_integer() else "frac"}'
+    cell = f'{par(n)}:Q={"int" if float(Q).is_integer() else "frac"}' + (':threshold' if case.get('large') else '')
     sig = f'Wavefront.unfocus:{cell}'
-    amp = 1.0 / npad                          # unitary inverse FFT over npad x npad samples
-    for (i, j) in positions(n, n, case['every']):
+    pos = [(n // 2, n // 2), (0, 0), (n - 1, n // 3), (n // 3, n - 1)] if case.get('large') else positions(n, n, case['every'])
+    for (i, j) in pos:
         d = np.zeros((n, n), dtype=complex)
         d[i, j] = 1
         x0, y0 = (j - n // 2) * dxf, (i - n // 2) * dxf
@@ -371,9 +372,11 @@ def run_unfocus_fft(case, seed, R):
         dx = scalar(R, getattr(out, 'dx', None), sig + ':dx')
         if a is None or dx is None:
             continue
-        if a.shape != (npad, npad):
-            R.violation(sig + ':shape', f'pupil array {a.shape}, expected ({npad}, {npad})')
+        npad = a.shape[0]
+        if a.shape[0] != a.shape[1] or npad < n:
+            R.violation(sig + ':shape', f'pupil array {a.shape} from a square {n}x{n} focal array')
             continue
+        amp = 1.0 / npad                          # unitary inverse FFT over npad x npad samples
         R.expect(getattr(out, 'space', None) == 'pupil', sig + ':space', 'space of the result')
         # slope per REPORTED pupil sample
         slope_checks(R, a, x0, y0, dx, wvl, efl, amp, sig)
@@ -489,6 +492,149 @@ def run_conversions(case, seed, R):
 
 
 # ---------------------------------------------------------------------------------------------
+# coordinates reported after earlier results had theirs read and edited in place (history)
+
+H_WVL, H_EFL, H_DXP = 0.5, 100.0, 0.1
+
+
+class CoordState:
+    def __init__(self, init):
+        self.init = init
+        self.results = []      # (label, Wavefront at the focal plane, (kx, ky), pupil n)
+        self.held = []         # [label, x, y, scribbled]  coordinate arrays handed out earlier
+        self.labels = set()
+        self.scribbled = set()
+
+
+def _scrub_module_state():
+    """histories must start from the state of a fresh process: empty every module-level mutable container / memo of the
+    anchored modules (there is none on the pinned tree; a tree that grows one must not leak it from one history to the next,
+    else a replay in a fresh process would not reproduce what the explorer saw)"""
+    import prysm._richdata as m1
+    import prysm.coordinates as m2
+    for m in (m1, m2, propagation):
+        for k, v in list(vars(m).items()):
+            if k.startswith('__'):
+                continue
+            if isinstance(v, (dict, list, set)):
+                v.clear()
+            elif hasattr(v, 'cache_clear'):
+                v.cache_clear()
+
+
+def h_fresh(init, seed):
+    reset_executors(64)
+    _scrub_module_state()
+    return CoordState(init)
+
+
+def h_events(init, hist, st):
+    ev = ['focus:A', 'focus:B', 'focus:C', 'fixed:A']
+    if st.results:
+        ev += ['read:first', 'read:last']
+    if any(not h[3] for h in st.held):
+        ev += ['edit-in-place']
+    return ev
+
+
+def _h_pupil(init, which):
+    n = init['n'] + (1 if which == 'C' else 0)           # C: another shape; A, B: same shape and dx, different tilt
+    k = {'A': (1, 0), 'B': (0, -1), 'C': (-1, 1)}[which]
+    return n, k, Wavefront(tilted_pupil(n, n, *k), H_WVL, H_DXP, 'pupil')
+
+
+def h_apply(st, ev, R):
+    init = st.init
+    kind, _, arg = ev.partition(':')
+    if kind == 'focus':
+        n, k, w = _h_pupil(init, arg)
+        out = R.call(w.focus, H_EFL, init['Q'], sig='history:Wavefront.focus:exception')
+        if out is not FAILED:
+            st.results.append((ev, out, k, n))
+            st.labels.add(ev)
+    elif kind == 'fixed':
+        # the grid of focus:A through the fixed-sampling route: same output shape, same dx
+        n, k, w = _h_pupil(init, arg)
+        npad = math.ceil(n * init['Q'])
+        dxo = H_WVL * H_EFL / (npad * H_DXP)
+        out = R.call(w.focus_fixed_sampling, H_EFL, dxo, npad, sig='history:Wavefront.focus_fixed_sampling:exception')
+        if out is not FAILED:
+            st.results.append((ev, out, k, n))
+            st.labels.add(ev)
+    elif kind == 'read':
+        label, out, k, n = st.results[0 if arg == 'first' else -1]
+        rd = R.call(lambda: out.intensity)
+        if rd is not FAILED:
+            x, y = R.call(lambda: rd.x), R.call(lambda: rd.y)
+            if x is not FAILED and y is not FAILED:
+                st.held.append([label, x, y, False])
+    elif kind == 'edit-in-place':
+        # what a caller does to re-reference / rescale ITS coordinates
+        for h in st.held:
+            if not h[3]:
+                try:
+                    h[1] -= 3.0
+                    h[2] *= 1e-3
+                except Exception:   # noqa -- read-only coordinates are a legitimate defence
+                    pass
+                h[3] = True
+                st.scribbled.add(h[0])
+    return st
+
+
+def h_check(st, init, hist, R):
+    """every result held, through a FRESH .intensity (and .phase): coordinates are (i - n//2) dx and the spot is reported at
+    k lam f / D; coordinates handed out earlier and not edited are unchanged"""
+    for label, out, k, n in st.results:
+        sig = 'history:coords:' + label.split(':')[0]
+        a = as_array(R, getattr(out, 'data', None), sig)
+        dx = scalar(R, getattr(out, 'dx', None), sig)
+        if a is None or dx is None:
+            continue
+        for view in ('intensity', 'phase'):
+            rd = R.call(lambda: getattr(out, view))
+            if rd is FAILED:
+                continue
+            cv = coord_vectors(R, rd, a.shape, sig)
+            if cv is None:
+                continue
+            wx = np.broadcast_to(ax(a.shape[1])[None, :] * dx, a.shape)
+            wy = np.broadcast_to(ax(a.shape[0])[:, None] * dx, a.shape)
+            okx = R.expect_close(cv[0], wx, 4 * EPS * a.shape[1] * abs(dx), sig, f'{view}.x of {label} after {hist} vs (i - n//2) dx')
+            oky = R.expect_close(cv[1], wy, 4 * EPS * a.shape[0] * abs(dx), sig, f'{view}.y of {label} after {hist} vs (i - n//2) dx')
+            if view == 'intensity' and okx and oky:
+                I = as_array(R, getattr(rd, 'data', None), sig)
+                if I is not None and I.shape == a.shape:
+                    iy, ix = np.unravel_index(int(np.argmax(I)), I.shape)
+                    D = n * H_DXP
+                    want = (k[0] * H_WVL * H_EFL / D, k[1] * H_WVL * H_EFL / D)
+                    # on the grid when k * (padded/unpadded) is an integer, else the nearest sample (within half a sample)
+                    ongrid = all(float(kk * a.shape[0] / n).is_integer() for kk in k)
+                    stol = 1e3 * EPS * (abs(want[0]) + abs(want[1]) + abs(dx)) if ongrid else 0.5 * abs(dx) * (1 + 1e-9)
+                    R.expect_close((cv[0][iy, ix], cv[1][iy, ix]), want, stol, sig + ':spot',
+                                   f'reported position of the brightest sample of {label} vs k lam f/D')
+    for label, x, y, scribbled in st.held:
+        if scribbled:
+            continue
+        try:
+            xs, ys = np.asarray(x), np.asarray(y)
+            ok = xs.ndim == 2 and ys.ndim == 2 and xs[0, xs.shape[1] // 2] == 0 and ys[ys.shape[0] // 2, 0] == 0
+        except Exception:   # noqa
+            ok = False
+        R.expect(ok, 'history:coords:held', f'coordinates read earlier from {label} changed without being edited, after {hist}')
+    R.nontrivial(len(st.results) > 0 and len(hist) > 1)
+    R.outcome('edited' if st.scribbled else 'clean')
+
+
+def h_canon(st):
+    """what a later transition can depend on: which (route, shape, dx) results exist, whose coordinates were edited,
+    whether un-edited coordinates are still held (enables the edit), and which results are first / last"""
+    first = st.results[0][0] if st.results else None
+    last = st.results[-1][0] if st.results else None
+    return (tuple(sorted(st.labels)), tuple(sorted(st.scribbled)), tuple(sorted({h[0] for h in st.held if not h[3]})), first, last)
+
+
+# ---------------------------------------------------------------------------------------------
 
 def plan(tier, seed):
     quick = tier == 'quick'
@@ -496,6 +642,7 @@ def plan(tier, seed):
     shapes = [[a, b] for a in NS for b in NS]
     shapes.sort(key=lambda s: (max(s), s[0] + s[1]))
     rs = lambda: reset_executors(64)   # noqa
+    hdepth = 4 if quick else 5
 
     def keep(ci, small):
         # quick tier: the full product on the smallest shapes, every 7th cell of the product elsewhere (by running index;
@@ -516,6 +663,10 @@ def plan(tier, seed):
     fft_cases = [{'n': n, 'Q': Q, 'units': u} for n in NS for Q in QS for u in UNITS]
     ns_cases = [{'n': s, 'Q': Q, 'units': u} for s in shapes if s[0] != s[1] for Q in QS for u in UNITS]
     uf_cases = [{'n': n, 'Q': Q, 'units': u, 'every': True} for n in NS for Q in QS for u in UNITS]
+    # threshold alphabet for the FFT route: sizes whose padded length ceil(N Q) has a prime factor >= 13 (where an FFT
+    # backend's preferred lengths differ from the requested one) next to smooth neighbours, a few larger ones
+    NL = [11, 12, 13, 16, 17, 19, 23, 26, 29, 31, 37, 64, 65, 67] + ([] if quick else [43, 47, 53, 97, 101]) + [127, 130]
+    big_cases = [{'n': n, 'Q': Q, 'units': u, 'large': True, 'every': False} for n in NL for Q in (1, 2, 1.5) for u in (UNITS[0], UNITS[7])]
     cv_cases = [{'n': n, 'units': u} for n in range(1, 28) for u in UNITS]
     thin = ' (quick: full product on shapes <= 4, every 7th cell of the product elsewhere)' if quick else ''
     return [
@@ -532,6 +683,11 @@ def plan(tier, seed):
                   f'pupil shapes [2..9]^2 (square and non-square) x 8 unit sets x requested dx in {DXRELS} x native x samples_out in {SAMP} (per axis) x shift in {SHIFTS} output samples (x,y){thin}; '
                   f'inside every case all {len(TILTS)} tilts x {{mdft, czt}} x {{function, Wavefront method}}: |field| vs closed-form kernel centred at k lam f/D_axis on the requested grid '
                   'displaced by the shift (function) and on the reported intensity.x/.y grids (method)', reset=rs),
+        ScopeUnit('fft_threshold', big_cases, run_fft_focus,
+                  f'threshold alphabet: square pupils N in {NL} x Q in {{1,2,1.5}} x 2 unit sets x tilts {TILTS_LARGE}: the same closed form at the reported coordinates, '
+                  'whatever size the route pads to, and both fixed-sampling methods at the reported dx; not closed over the tilt dimension', reset=rs),
+        ScopeUnit('unfocus_threshold', big_cases, run_unfocus_fft,
+                  'the same threshold alphabet through Wavefront.unfocus with point sources at the origin, a corner and two generic positions', reset=rs),
         ScopeUnit('unfocus_fft', uf_cases, run_unfocus_fft,
                   'focal arrays N in [2..9] x Q x units x EVERY point-source position: Wavefront.unfocus -> uniform modulus, phase slope per axis per reported pupil sample, full field vs '
                   'exp(+2 pi i (x x0 + y y0)/(lam f)) on the reported grid; both fixed-sampling methods at the reported pupil dx reproduce it', reset=rs),
@@ -539,4 +695,9 @@ def plan(tier, seed):
                   f'focal shapes [2..9]^2 x units x requested pupil dx in {DXRELS} x dx_p x samples_out x shift{thin}; inside: point-source positions (every position in the thorough tier; quick: '
                   'the two axes through the origin and both diagonals) x {mdft, czt}: unshifted single source -> slope per axis + full complex field; origin + source pair through the Wavefront method -> '
                   'complex field (unshifted) or modulus 2|cos| displaced by the shift', reset=rs),
+        HistoryUnit('coords_history', [{'n': 4, 'Q': 2}, {'n': 5, 'Q': 1}, {'n': 3, 'Q': 1.5}], h_fresh, h_events, h_apply, h_check, h_canon, hdepth,
+                    f'BFS to depth {hdepth} over events [focus:A, focus:B (same shape and dx, other tilt), focus:C (other shape), fixed:A (same grid through focus_fixed_sampling), '
+                    'read:first / read:last (.intensity.x/.y of a held result handed to the caller), edit-in-place (the caller re-references and rescales the arrays it was handed)]; '
+                    'canonical state = (results present, whose coordinates were edited, un-edited coordinates still held, first/last result); invariant in every state: every held result reports, '
+                    'through a fresh .intensity and .phase, coordinates (i - n//2) dx and the brightest sample at k lam f/D; coordinates handed out earlier and not edited are unchanged', reset=rs),
     ]
